@@ -1,4 +1,5 @@
 import QcoVerif.Lemmas.RepTable
+import QcoVerif.Lemmas.RepChainInit
 /-
   C09 — repetition-code circuits run the protocol: deterministic detectors, exact record.
 
@@ -25,6 +26,8 @@ import QcoVerif.Lemmas.RepTable
   MISSING for the full statement: chain descriptions of more than 9 data qubits (an induction over the chain
   length was not attempted), containers that give states to only some qubits, sub-chains listed in another
   qubit order (all three are covered by the correspondence run only).
+  ADDENDUM: the first two gaps are closed for the chain descriptions by the `…_chain` theorems at the end of
+  this file (every chain length, every prefix container), proved in Lemmas/RepChain*.lean.
 -/
 namespace Qco.C09
 open Qco.StimSem Qco.RepCode
@@ -173,5 +176,140 @@ theorem flattened_same_run (p : List Ins) (a b : Int) (s : St) : run (applyShift
   | nil => rfl
   | cons i is ih =>
     cases i <;> simp only [applyShifts, run, step, ih] <;> rfl
+
+/-! ### ALL chain lengths (Lemmas/RepChain*.lean)
+
+  The `_partial` theorems above cover the chain descriptions `from_chain(2n−1)` with n ≤ 9 through the
+  kernel-checked table.  Below the same statements for EVERY n, with and without refocusing, all cycle
+  counts, all computational initial states — and for every container that gives a state to the first
+  `ds.length ≤ n` data qubits and the first `as.length ≤ n−1` ancilla qubits (so in particular the two
+  container shapes of the table, `ds.length = n` and `as.length ∈ {0, n−1}`).  The per-description facts
+  that `RepLift` needs are PROVED for `chainDesc n r` (`Qco.RepChain.chain_facts_all`): the round of the
+  chain is SQRT_Y on the ancillas, CZ (2j,2j+1), CZ (2j+1,2j+2), SQRT_Y_DAG, M; each layer acts on a
+  register of product states by a closed-form local rule (`run_act1_layer`, `run_cz_layer`, `run_M_layer`),
+  the detector look-backs are computed from `lastAcqOf` of the parametric listings. -/
+
+/-- One QEC round with dynamical decoupling, for EVERY chain: from the closed-form state of parity `b`
+    (data x_i ⊕ [refocus ∧ b], ancilla a_j ⊕ [b](x_j ⊕ x_{j+1})) to the one of parity `!b`, the record gets
+    the ancilla outcomes of that state. -/
+theorem round_effect_chain (n : Nat) (r : Bool) (nD nA : Nat) (hD : nD ≤ n) (hA : nA ≤ n - 1) (b : Bool) :
+    run (roundDD (chainDesc n r)) ⟨stateB (chainDesc n r) nD nA b, [], [], 0⟩ =
+      some ⟨stateB (chainDesc n r) nD nA (!b), cB (chainDesc n r) nD nA (!b), [], 0⟩ := by
+  have F := Qco.RepChain.chain_facts_all n r nD nA hD hA
+  cases b
+  · exact F.round0
+  · exact F.round1
+
+/-- `protocol_record` for EVERY chain length: for all n, all cycles ≥ 0 and all computational initial states
+    the exported program exists, its run is defined (every measurement deterministic) and the record is the
+    closed form `expectedRecord` instantiated with the given states. -/
+theorem protocol_record_chain (n : Nat) (r : Bool) (cycles : Nat) (ds as : List Bool)
+    (hD : ds.length ≤ n) (hA : as.length ≤ n - 1) :
+    ∃ p sf, program (chainDesc n r) cycles ds as = some p ∧ run p (start (chainDesc n r).size) = some sf ∧
+      sf.mrec.reverse = (expectedRecord (chainDesc n r) cycles ds.length as.length).map (evalNat (assign ds as)) := by
+  obtain ⟨prep, sf, _, hprog, _, hrun, hrec, _, _⟩ :=
+    facts_concrete (Qco.RepChain.chain_facts_all n r ds.length as.length hD hA) cycles ds as rfl rfl
+  exact ⟨_, sf, hprog, hrun, hrec⟩
+
+/-- the hypotheses are satisfiable beyond the table: distance 12 (23 qubits), all data and ancilla states given -/
+example : (List.replicate 12 true).length ≤ 12 ∧ ([true, false, true, true, false, false, true, false, true, true, false] : List Bool).length ≤ 12 - 1 := by decide
+/-- … and the theorem instantiated there (7 cycles, with refocusing) -/
+example : ∃ p sf, program (chainDesc 12 true) 7 (List.replicate 12 true) [true, false, true] = some p ∧
+    run p (start (chainDesc 12 true).size) = some sf ∧
+    sf.mrec.reverse = (expectedRecord (chainDesc 12 true) 7 12 3).map (evalNat (assign (List.replicate 12 true) [true, false, true])) :=
+  protocol_record_chain 12 true 7 (List.replicate 12 true) [true, false, true] (by decide) (by decide)
+
+/-- `protocol_record_partial` instantiated at `chainDesc n` without the table-membership hypothesis:
+    the container gives a state to every data qubit and to all or to none of the ancilla qubits. -/
+theorem protocol_record_chain_full (n : Nat) (r : Bool) (nA : Nat) (hnA : nA = 0 ∨ nA = n - 1) (cycles : Nat)
+    (ds as : List Bool) (hD : ds.length = n) (hA : as.length = nA) :
+    ∃ p sf, program (chainDesc n r) cycles ds as = some p ∧ run p (start (chainDesc n r).size) = some sf ∧
+      sf.mrec.reverse = (expectedRecord (chainDesc n r) cycles n nA).map (evalNat (assign ds as)) := by
+  subst hD; subst hA
+  exact protocol_record_chain ds.length r cycles ds as (Nat.le_refl _) (by omega)
+
+example : (3 : Nat) = 0 ∨ 3 = 4 - 1 := by decide
+
+/-- All (n−1)·(cycles+1) detectors are deterministic, for EVERY chain length: the run is defined and each
+    detector evaluates to the constant `expectedDetectors` gives. -/
+theorem detectors_deterministic_chain (n : Nat) (r : Bool) (cycles : Nat) (ds as : List Bool)
+    (hD : ds.length ≤ n) (hA : as.length ≤ n - 1) :
+    ∃ p sf, program (chainDesc n r) cycles ds as = some p ∧ run p (start (chainDesc n r).size) = some sf ∧
+      p.countP isDet = (chainDesc n r).ancIdx.length * (cycles + 1) ∧
+      sf.det.reverse = (expectedDetectors (chainDesc n r) cycles ds.length as.length).map (evalNat (assign ds as)) ∧
+      (∀ v ∈ sf.det, v = 0 ∨ v = 1) := by
+  obtain ⟨prep, sf, _, hprog, _, hrun, _, hdet, _⟩ :=
+    facts_concrete (Qco.RepChain.chain_facts_all n r ds.length as.length hD hA) cycles ds as rfl rfl
+  refine ⟨_, sf, hprog, hrun, ?_, hdet, ?_⟩
+  · have hc := (run_counts _ _ _ hrun).1
+    have hl : sf.det.length = (chainDesc n r).ancIdx.length * (cycles + 1) := by
+      rw [← List.length_reverse, hdet, List.length_map, expectedDetectors_length]
+    simp only [start, List.length_nil, Nat.zero_add] at hc
+    omega
+  · intro v hv
+    have : v ∈ sf.det.reverse := List.mem_reverse.mpr hv
+    rw [hdet, List.mem_map] at this
+    obtain ⟨f, _, rfl⟩ := this
+    unfold evalNat
+    cases evalForm (assign ds as) f <;> simp
+
+/-- the number of ancillas of the chain of distance n is n − 1 -/
+theorem chain_ancilla_count (n : Nat) (r : Bool) : (chainDesc n r).ancIdx.length = n - 1 := by
+  match n with
+  | 0 => rfl
+  | m + 1 => rw [Qco.RepChain.chain_ancIdx, Qco.RepChain.ancL_length]; rfl
+
+/-- The logical observable is deterministic, for EVERY chain length: the sum of the final data values. -/
+theorem observable_deterministic_chain (n : Nat) (r : Bool) (cycles : Nat) (ds as : List Bool)
+    (hD : ds.length ≤ n) (hA : as.length ≤ n - 1) :
+    ∃ p sf, program (chainDesc n r) cycles ds as = some p ∧ run p (start (chainDesc n r).size) = some sf ∧
+      sf.obs = evalNat (assign ds as) (expectedObservable (chainDesc n r) cycles ds.length) := by
+  obtain ⟨prep, sf, _, hprog, _, hrun, _, _, hobs⟩ :=
+    facts_concrete (Qco.RepChain.chain_facts_all n r ds.length as.length hD hA) cycles ds as rfl rfl
+  exact ⟨_, sf, hprog, hrun, hobs⟩
+
+/-- Every requested initial state is prepared, for EVERY chain length: right after the preparation layer
+    (heralding measurements all 0) data qubit i is |x_i⟩ and ancilla qubit j is |a_j⟩ (|0⟩ if no state was
+    given for it). -/
+theorem initial_state_prepared_chain (n : Nat) (r : Bool) (ds as : List Bool)
+    (hD : ds.length ≤ n) (hA : as.length ≤ n - 1) :
+    ∃ prep s, prepConc (chainDesc n r) ds as = some prep ∧
+      run (initPart (chainDesc n r) prep) (start (chainDesc n r).size) = some s ∧
+      s.mrec = zeros (chainDesc n r) ∧
+      (∀ i, i < ds.length → s.q[(chainDesc n r).dataIdx.getD i 0]? = some ⟨.Z, (ds.getD i false).toNat⟩) ∧
+      (∀ j, j < (chainDesc n r).ancIdx.length →
+        s.q[(chainDesc n r).ancIdx.getD j 0]? = some ⟨.Z, (as.getD j false).toNat⟩) := by
+  have F := Qco.RepChain.chain_facts_all n r ds.length as.length hD hA
+  obtain ⟨prep, sf, hprep, _, hinit, _⟩ := facts_concrete F 0 ds as rfl rfl
+  refine ⟨prep, _, hprep, hinit, ?_, ?_, ?_⟩
+  · simp [mapSt, zeros, evalNat_zero]
+  · intro i hi
+    have h := F.prepData
+    rw [List.all_eq_true] at h
+    have := h i (List.mem_range.mpr hi)
+    simp only [decide_eq_true_eq] at this
+    simp only [mapSt, List.getElem?_map, this, Option.map_some, mapQ, evalNat_var, assign_data ds as i hi]
+  · intro j hj
+    have h := F.prepAnc
+    rw [List.all_eq_true] at h
+    have := h j (List.mem_range.mpr hj)
+    simp only [decide_eq_true_eq] at this
+    simp only [mapSt, List.getElem?_map, this, Option.map_some, mapQ]
+    by_cases hjA : j < as.length
+    · simp only [hjA, if_true, evalNat_var, assign_anc ds as j]
+    · simp [hjA, evalNat_zero]
+
+/-- the hypotheses of the `_chain` theorems are satisfiable beyond the table: distance 40, partial containers -/
+example : (25 : Nat) ≤ 40 ∧ (39 : Nat) ≤ 40 - 1 := by decide
+
+/-- … so the chain of distance n has exactly (n−1)·(cycles+1) detectors, all deterministic. -/
+theorem detector_count_chain (n : Nat) (r : Bool) (cycles : Nat) (ds as : List Bool)
+    (hD : ds.length ≤ n) (hA : as.length ≤ n - 1) :
+    ∃ p, program (chainDesc n r) cycles ds as = some p ∧ p.countP isDet = (n - 1) * (cycles + 1) := by
+  obtain ⟨p, _, hp, _, hc, _⟩ := detectors_deterministic_chain n r cycles ds as hD hA
+  rw [chain_ancilla_count] at hc
+  exact ⟨p, hp, hc⟩
+
+example : ([] : List Bool).length ≤ 30 ∧ ([] : List Bool).length ≤ 30 - 1 := by decide
 
 end Qco.C09
